@@ -297,3 +297,14 @@ Theorem C13_shared_write_buffer_refuted :
   = [CReq 0 3 "writeRequest" [VU64 1; VBytes [65; 65; 65; 65]]; CReq 1 3 "writeRequest" [VU64 2; VBytes [66; 66]]].
 Proof. exact shared_write_buffer_refuted. Qed.
 Print Assumptions C13_shared_write_buffer_refuted.
+
+(** * Round 3 (seeded change C13-i): the websocket hands every frame to the decoder *)
+
+(** What the package configures on its websockets (scanned by the
+    translator): the 64 KiB buffers of upgrader and dialer, and nothing else -
+    in particular no read limit, so a legal frame is decoded whatever the
+    size of its fields. *)
+Theorem C13_websocket_no_read_limit :
+  ws_no_read_limit gen_ws_config = true /\ src_eqb gen_ws_config deployed_ws_config = true.
+Proof. exact (conj gen_ws_no_read_limit gen_ws_config_frozen). Qed.
+Print Assumptions C13_websocket_no_read_limit.
